@@ -14,6 +14,7 @@ use crate::names::*;
 use crate::peg::{self, Grammar, Node};
 use crate::shrink::shrink_nd;
 use crate::Ctx;
+use narsese::enum_narsese::Narsese;
 use narsese::lexical::{Narsese as LexNarsese, Term as LexTerm};
 
 // ---------------- hard-coded OpenNARS-compatible ASCII lexicon ----------------
@@ -367,7 +368,30 @@ fn enum_failure(g: &Grammar, nd: &ND) -> Option<String> {
     if !same_up_to_float_spelling(&stripped, &ref_text) {
         return Some(format!("the ASCII formatter wrote {:?}; the OpenNARS lexicon gives {:?} (spaces ignored)", s, ref_text));
     }
-    string_failure(g, &s, nd.kind_name(), Some(&ref_tree))
+    if let Some(w) = string_failure(g, &s, nd.kind_name(), Some(&ref_tree)) {
+        return Some(w);
+    }
+    // the other ways to the same formatter (kind-specific method, `format(&value)`, `FormatTo`)
+    use narsese::api::FormatTo;
+    let e = Fmt::Ascii.e();
+    let others: Vec<(&str, Obs<String>)> = match &real {
+        Narsese::Term(t) => vec![("format_term", observe(|| e.format_term(t))), ("format(&term)", observe(|| e.format(t))), ("term.format_to", observe(|| t.format_to(e)))],
+        Narsese::Sentence(t) => vec![("format_sentence", observe(|| e.format_sentence(t))), ("format(&sentence)", observe(|| e.format(t))), ("sentence.format_to", observe(|| t.format_to(e)))],
+        Narsese::Task(t) => vec![("format_task", observe(|| e.format_task(t))), ("format(&task)", observe(|| e.format(t))), ("task.format_to", observe(|| t.format_to(e)))],
+    };
+    let wrapper = ("format(&narsese)", observe(|| e.format(&real)));
+    for (name, o) in others.into_iter().chain(std::iter::once(wrapper)) {
+        match o {
+            Obs::Ret(t) if t == s => {}
+            Obs::Ret(t) => {
+                if let Some(w) = string_failure(g, &t, nd.kind_name(), Some(&ref_tree)) {
+                    return Some(format!("through {}: {}", name, w));
+                }
+            }
+            Obs::Panic(p) => return Some(format!("enum {} panicked: {}", name, p)),
+        }
+    }
+    None
 }
 
 fn lex_failure(g: &Grammar, x: &LexNarsese) -> Option<String> {
@@ -381,7 +405,31 @@ fn lex_failure(g: &Grammar, x: &LexNarsese) -> Option<String> {
         LexNarsese::Task(_) => "task",
     };
     let want = lexgen::lex_canon(x);
-    string_failure(g, &s, kind, Some(&want))
+    if let Some(w) = string_failure(g, &s, kind, Some(&want)) {
+        return Some(w);
+    }
+    // the other ways to the same formatter: the kind-specific method, `format(&value)`, and the
+    // `FormatTo` trait on the value and on the wrapper; whatever differs must conform on its own
+    use narsese::api::FormatTo;
+    let l = Fmt::Ascii.l();
+    let others: Vec<(&str, Obs<String>)> = match x {
+        LexNarsese::Term(t) => vec![("format_term", observe(|| l.format_term(t))), ("format(&term)", observe(|| l.format(t))), ("term.format_to", observe(|| t.format_to(l)))],
+        LexNarsese::Sentence(t) => vec![("format_sentence", observe(|| l.format_sentence(t))), ("format(&sentence)", observe(|| l.format(t))), ("sentence.format_to", observe(|| t.format_to(l)))],
+        LexNarsese::Task(t) => vec![("format_task", observe(|| l.format_task(t))), ("format(&task)", observe(|| l.format(t))), ("task.format_to", observe(|| t.format_to(l)))],
+    };
+    let wrapper = ("format(&narsese)", observe(|| l.format(x)));
+    for (name, o) in others.into_iter().chain(std::iter::once(wrapper)) {
+        match o {
+            Obs::Ret(t) if t == s => {}
+            Obs::Ret(t) => {
+                if let Some(w) = string_failure(g, &t, kind, Some(&want)) {
+                    return Some(format!("through {}: {}", name, w));
+                }
+            }
+            Obs::Panic(p) => return Some(format!("lexical {} panicked: {}", name, p)),
+        }
+    }
+    None
 }
 
 /// the vocabulary the lexical ASCII instance must have, from the hard-coded table
